@@ -21,7 +21,7 @@ import (
 // Generous watchdogs. Their expiry alone never yields a violation: a violation needs
 // a structural witness on top (see inflight); otherwise the check is undecided.
 const (
-	waitBegin  = 40 * time.Second
+	waitBegin  = 100 * time.Second
 	waitSettle = 20 * time.Second
 	waitRerun  = 100 * time.Second // the task queue may legitimately pause for maxExecutionWait (1 min)
 )
@@ -77,7 +77,7 @@ func newWorld(sp caseSpec, dir string) *world {
 	}()
 	// portbase's own timeouts stay far away from anything the case does (work ends in
 	// milliseconds); only the *event* that the stop timeout expired is used.
-	modules.VerifSetStopTimeout(45 * time.Second)
+	modules.VerifSetStopTimeout(25 * time.Second)
 	vhook.Set("modules.stop.timeout", func(_, subject string) {
 		w.stopTimeouts.Add(1)
 		if st := modules.GetStatus(); st != nil {
@@ -90,6 +90,12 @@ func newWorld(sp caseSpec, dir string) *world {
 		}
 		w.log.Rec("hook", subject, "modules.stop.timeout", nil)
 	})
+	// Amplifier / de-amplifier at modules.task.defer (start of the deferred clean-up of a
+	// task execution): a delay keeps the clean-up from overtaking the goroutine that
+	// watches the task's context (see finding "task watcher reads a replaced context").
+	if d := time.Duration(sp.TaskDeferUS) * time.Microsecond; d > 0 {
+		vhook.Set("modules.task.defer", func(_, _ string) { time.Sleep(d) })
+	}
 	return w
 }
 
@@ -99,6 +105,12 @@ func (w *world) check(oracle, kind, value string, ok bool, what string, detail a
 	c := check{Oracle: oracle, Kind: kind, Value: value, OK: ok}
 	if !ok {
 		c.What, c.Detail = what, detail
+		if shortExpired.Load() {
+			// judged after a shortened wait: not a verdict
+			c.OK, c.Undecided, c.Detail = false, true, nil
+			c.What = "(not judged: follows an earlier failed check of this case, waits were cut short) " + what
+		}
+		failedOnce.Store(true)
 	}
 	w.out.Checks = append(w.out.Checks, c)
 }
@@ -145,9 +157,8 @@ func (w *world) finish() {
 	w.out.Events = evs
 	w.out.Counts["events"] = int64(w.log.Len())
 	w.out.Counts["error_reports_received"] = int64(len(w.reports))
-	out := w.out
-	w.mu.Unlock()
-	vlib.ChildFinish(w.dir, out)
+	// written under the lock: work that portbase still runs late must not race with it
+	vlib.ChildFinish(w.dir, w.out)
 	os.Exit(0)
 }
 
@@ -181,8 +192,29 @@ func errText(err error) string {
 	return safeString(err.Error)
 }
 
+// Once a check of this case has failed (the case is a violation witness already), the
+// remaining waits are cut short; what they would have decided is then left undecided
+// instead of being judged on a short clock.
+var (
+	failedOnce   atomic.Bool
+	shortExpired atomic.Bool
+)
+
+const shortWait = 4 * time.Second
+
 // waitFor polls cond until it holds or the (generous) limit expires.
 func waitFor(limit time.Duration, cond func() bool) bool {
+	short := false
+	if failedOnce.Load() && limit > shortWait {
+		limit, short = shortWait, true
+	}
+	if short {
+		defer func() {
+			if !cond() {
+				shortExpired.Store(true)
+			}
+		}()
+	}
 	deadline := time.Now().Add(limit)
 	d := 50 * time.Microsecond
 	for {
@@ -247,6 +279,8 @@ var runFrames = []string{
 	"api.(*mainHandler).ServeHTTP",
 }
 
+var foreignWorkers = []string{"portbase/rng.", "api.serverManager", "net/http.(*Server).", "portbase/database.", "dbmodule."}
+
 // inflight is the structural witness used when a watchdog expired: it returns the
 // goroutines that are still inside a portbase run path and are not one of the
 // harness' own parked healthy items (or other known long-lived workers). If there are
@@ -265,7 +299,13 @@ func inflight(ignore ...string) (n int, sample string) {
 		if !hit || strings.Contains(g, "healthyWait") {
 			continue
 		}
+		// long-lived workers of the modules the binary links besides the harness' own
 		skip := false
+		for _, ig := range foreignWorkers {
+			if strings.Contains(g, ig) {
+				skip = true
+			}
+		}
 		for _, ig := range ignore {
 			if strings.Contains(g, ig) {
 				skip = true
